@@ -44,6 +44,14 @@ def _cayley(rng, k, den=4):
     return (I - S) @ np.linalg.inv(I + S)
 
 
+def nn(ctx, q, t):
+    """case count: quick / thorough; when the translator tie (coq/gen/C18_Equiv.v) is broken the quick sweeps of the sub-checks that
+    exercise the translated functions are widened 3x (the search for a concrete failing input)"""
+    if getattr(ctx, "c18_tie_broken", False) and ctx.quick:
+        return min(t, 3 * q)
+    return ctx.n(q, t)
+
+
 def get_sys(ctx, name):
     """name: 1q | qutrit | 2q | 1q-rot | qutrit-rot  (rot: Hermitian orthonormal basis rotated by a rational orthogonal
     matrix on the traceless part, so that the basis elements are generic: neither sparse nor proportional to unitaries)"""
@@ -418,6 +426,17 @@ def chk_extract(ctx, case):
     j_np = jmat_fixed_np(S, L_cb)
     if md(j_np, j_mod) > tol:
         ctx.violation("extract", "harness.jmat_fixed_np", "oracle-mismatch", "numpy evaluation of calc_j_mat and the model's calc_j_mat differ", case)
+    # ---- representation of the ARGUMENT must not matter: Fortran-ordered copy, non-contiguous view; default mode_basis = "hermitian_basis"
+    if case.get("layout", True):
+        big = np.zeros((2 * n, 2 * n)); big[::2, ::2] = hs
+        for tag, arr in [("fortran-order", np.asfortranarray(hs.copy())), ("strided-view", big[::2, ::2])]:
+            Lv = mk_el(S, arr)
+            if md(Lv.calc_h_mat(), h_i) > 0 or md(Lv.calc_j_mat(), j_i) > 0 or md(Lv.calc_k_mat(), k_i) > 0 or md(Lv.hs, hs) > 0:
+                ctx.violation("extract", "EffectiveLindbladian.__init__", "argument-layout", "results depend on the memory layout of the hs argument (%s)" % tag, case)
+        for nm in ("h", "j", "k", "d"):
+            f = getattr(L, "calc_%s_part" % nm)
+            if md(f(), f(mode_basis="hermitian_basis")) > 0:
+                ctx.violation("extract", "EffectiveLindbladian.calc_%s_part" % nm, "default-mode-basis", "calc_%s_part() differs from calc_%s_part(mode_basis='hermitian_basis')" % (nm, nm), case)
     # ---- property: the extracted matrices are the ones the generator was built from
     if H is not None:
         Ht = H - np.trace(H) / d * np.eye(d)           # H is determined up to multiples of the identity
@@ -472,7 +491,7 @@ def chk_extract(ctx, case):
 def sub_extract(ctx):
     rng = ctx.rng
     cases = []
-    plan = [("1q", ctx.n(10, 60)), ("1q-rot", ctx.n(6, 40)), ("qutrit", ctx.n(6, 40)), ("2q", ctx.n(2, 25)), ("qutrit-rot", ctx.n(0, 20))]
+    plan = [("1q", nn(ctx, 10, 60)), ("1q-rot", nn(ctx, 6, 40)), ("qutrit", nn(ctx, 6, 40)), ("2q", nn(ctx, 2, 25)), ("qutrit-rot", ctx.n(0, 20))]
     for sysn, cnt in plan:
         S = get_sys(ctx, sysn); d, n = S["d"], S["n"]
         for i in range(cnt):
@@ -599,7 +618,7 @@ def chk_jump(ctx, case):
 def sub_jump(ctx):
     rng = ctx.rng
     cases = []
-    plan = [("1q", ctx.n(8, 50)), ("1q-rot", ctx.n(3, 20)), ("qutrit", ctx.n(5, 40)), ("2q", ctx.n(2, 20))]
+    plan = [("1q", nn(ctx, 8, 50)), ("1q-rot", nn(ctx, 3, 20)), ("qutrit", nn(ctx, 5, 40)), ("2q", nn(ctx, 2, 20))]
     for sysn, cnt in plan:
         S = get_sys(ctx, sysn); d, n = S["d"], S["n"]
         for i in range(cnt):
@@ -702,6 +721,27 @@ def chk_verdict_boundary(ctx, case):
                 nm, case["e"], impl[k], case["rel"], "%+.8g x" % (case["sign"] * fac), mod[k]), case)
 
 
+def chk_cp_boundary(ctx, case):
+    """is_cp just inside / just outside its threshold with a dyadic tolerance: K = diag(-atol (1 -+ 2^-16), 1, 1, ..) * (unitary-free, diagonal),
+    H = 0; the generator comes from the model (exact), the relative margin 2^-16 is far above the rounding of calc_k_mat / eigvalsh."""
+    S = get_sys(ctx, case["sys"]); d, n = S["d"], S["n"]
+    m = ctx.get_model()
+    atol = 2.0 ** (-case["e"])
+    lam = -atol * (1.0 - 2.0 ** -16 if case["rel"] == "inside" else 1.0 + 2.0 ** -16)
+    K = np.diag([lam] + [atol * 4.0] * (n - 2)).astype(complex)
+    pos = case["pos"] % (n - 1)
+    K[[0, pos]] = K[[pos, 0]]; K[:, [0, pos]] = K[:, [pos, 0]]
+    v = m.call("c18.gen", [d, 3], [ATOL0, 0.0] + S["bq"] + cflat(K))
+    hs = rmatv(v, n, n)
+    L = mk_el(S, hs)
+    want = case["rel"] == "inside"
+    ctx.count("verdict", key=repr(case), nontrivial=True, label="cp-boundary/%s" % case["rel"])
+    got = [bool(L.is_cp(atol)), bool(L.is_physical(atol, atol))]
+    if got[0] != want or got[1] != want:
+        ctx.violation("verdict", "EffectiveLindbladian.is_cp", "verdict-at-threshold", "is_cp / is_physical (atol=2^-%d) = %s on a generator whose dissipator matrix has its least eigenvalue %s the threshold (-atol (1 %s 2^-16)); expected %s" % (
+            case["e"], got, case["rel"], "-" if want else "+", want), case)
+
+
 def sub_verdict(ctx):
     rng = ctx.rng
     cases = []
@@ -723,6 +763,12 @@ def sub_verdict(ctx):
         for q, rel in enumerate(["at", "above", "below"] * (1 if ctx.quick else 3)):
             bcases.append({"sys": sysn, "e": rng.choice([13, 20, 30, 43]), "rel": rel, "sign": rng.choice([-1.0, 1.0]), "col": rng.randint(0, 15)})
     ctx.run_cases("verdict", chk_verdict_boundary, bcases)
+    ccases = []
+    for sysn in ("1q", "qutrit") + (() if ctx.quick else ("2q",)):
+        for rel in ("inside", "outside"):
+            for e in ([20, 40] if ctx.quick else [10, 20, 30, 40]):
+                ccases.append({"sys": sysn, "e": e, "rel": rel, "pos": rng.randint(0, 14)})
+    ctx.run_cases("verdict", chk_cp_boundary, ccases)
 
 
 # ================================================================================================ 5. projections
@@ -1096,7 +1142,61 @@ def sub_typical(ctx):
 SUBS = [("gen", sub_gen), ("extract", sub_extract), ("jump", sub_jump), ("verdict", sub_verdict), ("proj_eq", sub_proj_eq),
         ("proj_ineq", sub_proj_ineq), ("to_gate", sub_to_gate), ("tables", sub_tables), ("typical", sub_typical)]
 FNS = {"gen": chk_gen, "extract": chk_extract, "jump": chk_jump, "verdict": chk_verdict, "proj_eq": chk_proj_eq, "proj_ineq": chk_proj_ineq,
-       "verdict_boundary": chk_verdict_boundary, "to_gate": chk_to_gate, "tables": chk_tables, "typical": chk_typical, "random_setting": chk_random_setting}
+       "verdict_boundary": chk_verdict_boundary, "cp_boundary": chk_cp_boundary, "to_gate": chk_to_gate, "tables": chk_tables, "typical": chk_typical, "random_setting": chk_random_setting}
+
+
+# ------------------------------------------------------------------------------------------------ translator tie
+def regen_skeletons(ctx):
+    """regenerate (gen/c18_py2coq.py) the Gallina text of the loop skeletons of calc_h_mat / calc_j_mat / calc_k_mat, of
+    generate_j/k/d_part_cb_from_jump_operators and of CompositeSystem._calc_basis_basisconjugate_sparse from the CURRENT source,
+    compile it, and re-check coq/gen/C18_Equiv.v against it (protocol of flow.regen_check with this property's own translator).
+    returns (ok, info)"""
+    import os, re, shutil, subprocess, sys
+    import runner
+    V = runner.V
+    scratch = os.path.join(getattr(ctx, "scratch", os.path.join(V, "build", ctx.prop_id)), "gen")
+    os.makedirs(scratch, exist_ok=True)
+    gen_v = os.path.join(scratch, "Gen_c18.v")
+    for stem in (gen_v[:-2], os.path.join(scratch, "C18_Equiv")):
+        for ext in (".v", ".vo", ".vos", ".vok", ".glob"):
+            try:
+                os.remove(stem + ext)
+            except OSError:
+                pass
+    equiv = os.path.join(V, "coq", "gen", "C18_Equiv.v")
+    src = open(equiv).read()
+    src_nc = re.sub(r"\(\*.*?\*\)", " ", src, flags=re.S)
+    thms = re.findall(r"^\s*Theorem\s+([\w']+)", src_nc, flags=re.M)
+    ctx.theorems = list(ctx.theorems) + [t for t in thms if t not in ctx.theorems]
+    ctx.obligations += len(thms)
+    r = subprocess.run([sys.executable, os.path.join(V, "gen", "c18_py2coq.py"), os.environ.get("VERIF_REPO", "/repo"), gen_v],
+                       capture_output=True, text=True, timeout=120)
+    if r.returncode != 0:
+        return False, {"theorem": thms[0], "error": "translator rejected the source (outside its subset): " + (r.stdout + r.stderr)[-600:]}
+    q = ["-Q", os.path.join(V, "coq", "theories"), "QV", "-Q", scratch, "QVGen"]
+    r = subprocess.run(["timeout", "300", "coqc"] + q + [gen_v], capture_output=True, text=True)
+    if r.returncode != 0:
+        return False, {"theorem": thms[0], "error": "regenerated definitions do not compile: " + (r.stdout + r.stderr)[-600:]}
+    dst = os.path.join(scratch, "C18_Equiv.v")
+    shutil.copy(equiv, dst)
+    r = subprocess.run(["timeout", "600", "coqc"] + q + [dst], capture_output=True, text=True)
+    out = r.stdout + r.stderr
+    if r.returncode != 0:
+        m_ = re.search(r"line (\d+), characters", out)
+        thm = None
+        if m_:
+            upto = "\n".join(src.splitlines()[:int(m_.group(1))])
+            names = re.findall(r"^\s*(?:Theorem|Lemma)\s+([\w']+)", upto, flags=re.M)
+            thm = names[-1] if names else None
+        return False, {"theorem": thm, "error": out[-800:]}
+    blocks = runner.parse_assumptions(out)
+    bad = [a for closed, axs in blocks for a in axs if a not in runner.ALLOWED_AXIOMS and a.split(".")[-1] not in runner.ALLOWED_AXIOMS]
+    if len(blocks) != len(thms) or bad:
+        return False, {"theorem": thms[0], "error": "assumption gate on regenerated proofs: %d blocks / %d theorems, disallowed %s" % (len(blocks), len(thms), bad)}
+    for t, (closed, axs) in zip(thms, blocks):
+        ctx.axioms[t] = "closed" if closed else sorted(set(axs))
+    ctx.discharged += len(thms)
+    return True, {}
 
 
 def run(ctx):
@@ -1122,7 +1222,25 @@ def run(ctx):
                 key = "%s/%s" % (sub, case.get("sys", "-") if isinstance(case, dict) else "-")
                 _TIMES[key] = _TIMES.get(key, 0.0) + time.time() - t0
         ctx.run_cases = run_cases
-    flow.standard_run(ctx, [(nm, timed(nm, fn)) for nm, fn in SUBS])
+    # flow.standard_run with this property's own translator tie (flow.regen_check is bound to gen/py2coq.py)
+    import runner
+    ok, info = runner.check_props(ctx)
+    ok2, info2 = regen_skeletons(ctx)
+    if not ok2:
+        ok, info = False, info2
+        ctx.note("regenerated loop-skeleton obligations (coq/gen/C18_Equiv.v) not discharged: %s" % str(info2)[:500])
+        ctx.c18_tie_broken = True          # widen the sweeps that exercise the translated functions (extract, jump; tables are exhaustive anyway)
+    if not ok:
+        ctx.discharged = min(ctx.discharged, ctx.obligations - 1)
+    for name, fn in [(nm, timed(nm, fn)) for nm, fn in SUBS]:
+        if ctx.only is None or name in ctx.only:
+            fn(ctx)
+    if not ok and not ctx.violations:
+        ctx.violation("theorems", "Props/C18.v + coq/gen/C18_Equiv.v", "theorem-broken:%s" % info.get("theorem"),
+                      "theorem %s no longer checks: %s" % (info.get("theorem"), info.get("error", "")[-400:]),
+                      {"theorem": info.get("theorem"), "error": info.get("error")}, no_input=True)
+    elif not ok:
+        ctx.note("theorem obligations not discharged: %s" % info)
     if _WORST:
         ctx.note("worst ratio error / allowance: " + ", ".join("%s %.3f" % kv for kv in sorted(_WORST.items())))
     ctx.note("case time by sub-check/system: " + ", ".join("%s %.1fs" % (k, v) for k, v in sorted(_TIMES.items()) if v >= 0.5))
@@ -1133,5 +1251,5 @@ def replay(ctx, doc):
     if doc["sub"] == "gen" and isinstance(case, dict) and "mode" not in case.get("case", case):
         flow.standard_replay(ctx, doc, {"gen": chk_gen_shape}); return
     if doc["sub"] == "verdict" and isinstance(case, dict) and "rel" in case.get("case", case):
-        flow.standard_replay(ctx, doc, {"verdict": chk_verdict_boundary}); return
+        flow.standard_replay(ctx, doc, {"verdict": chk_cp_boundary if "pos" in case.get("case", case) else chk_verdict_boundary}); return
     flow.standard_replay(ctx, doc, FNS)
